@@ -2224,6 +2224,17 @@ func (vc *VC) GenerateLemmas(lemmas []*Clause) (err error) {
 	vc.st = &State{h: map[string]string{}}
 	vc.entry = vc.st
 	for _, l := range lemmas {
+		if l.Kind == "orderfree" {
+			obls, trusted, err := vc.P.EvalOrderClause(l, vc.key)
+			if err != nil {
+				return err
+			}
+			for _, tr := range trusted {
+				vc.assumedUsed[tr] = true
+			}
+			vc.obls = append(vc.obls, obls...)
+			continue
+		}
 		if l.Kind == "tables" {
 			obls, err := vc.P.EvalTablesClause(l, vc.key)
 			if err != nil {
